@@ -303,6 +303,12 @@ class Gen:
                 self.nodes[node]["eff_handler"] = True
             self.emit(f"subscribe {o} {len(self.subs)} {e}")
             self.subs.append(dict(obs=o))
+        elif k == "onupdate":
+            # Incr::on_update: a handler on a node itself (the observed one, or any other — then it may hear Unnecessary)
+            node = self.obs[o]["node"]
+            h = node if (node is not None and self.rng.random() < 0.5) else self.pick_node()
+            self.nupd = getattr(self, "nupd", 0) + 1
+            self.emit(f"onupdate {h} {2000 + self.nupd} []")
         elif k == "unsubscribe" and self.subs:
             s = self.rng.randrange(len(self.subs))
             target = self.subs[s]["obs"] if self.rng.random() < 0.8 else o
@@ -462,7 +468,7 @@ PROFILES = {
                    obs_ops=["subscribe", "subscribe", "subscribe", "unsubscribe", "clone", "drop", "disallow", "read"]),
     # cutoffs that only suppress equal values: the subscription oracle compares delivered values with the reference
     "subs": dict(cutoffs=["eq", "never", "fn:0", "boxed:0"], weights=w(observe=7, obs_misc=16, write=12, stabilise=10, bind=3, cutoff=0),
-                 obs_ops=["subscribe", "subscribe", "subscribe", "unsubscribe", "stateunsub", "clone", "drop", "disallow", "read"]),
+                 obs_ops=["subscribe", "subscribe", "subscribe", "unsubscribe", "stateunsub", "clone", "drop", "disallow", "read", "onupdate"]),
     # C08: closures and handlers that write and read variables
     "writes": dict(eff_prob=0.45, eff_in_templates=False, eff_in_handlers=True,
                    eff_kinds=["set", "update", "modify", "replace", "replacewith", "get", "get"],
